@@ -102,9 +102,7 @@ func vpC22ParseAE(present bool, values []string) vpC22AE {
 				// not a token: remember every known coding name it mentions as "unparsable"
 				for _, k := range []string{"gzip", "deflate", "br", "zstd", "identity", "*"} {
 					if strings.Contains(strings.ToLower(el), k) {
-						if _, seen := ae.q[k]; !seen {
-							ae.q[k] = -1
-						}
+						ae.q[k] = -1 // a malformed member that names the coding makes the field ambiguous for it, whatever else is listed
 					}
 				}
 				continue
@@ -471,10 +469,17 @@ func vpC22GenLevel(t *rapid.T, label string) int {
 // domain but are drawn less often so the case budget is not spent on clearing hash tables.
 func vpC22GenLevelFor(t *rapid.T, codec, label string) int {
 	l := vpC22GenLevel(t, label)
-	if vpC22HeavyLevel(codec, l) && rapid.IntRange(0, 3).Draw(t, label+"KeepHeavy") != 0 {
+	if vpC22HeavyLevel(codec, l) && rapid.IntRange(0, vpC22HeavyDivisor(codec, l)-1).Draw(t, label+"KeepHeavy") != 0 {
 		l = rapid.IntRange(-10, 2).Draw(t, label+"Light")
 	}
 	return l
+}
+
+func vpC22HeavyDivisor(codec string, l int) int {
+	if codec == "zstd" && l == 4 {
+		return 10 // klauspost's "best" encoder clears ~100 MiB of tables per stream
+	}
+	return 4
 }
 
 func vpC22HeavyLevel(codec string, l int) bool {
